@@ -43,6 +43,7 @@ struct Config {
     int nt = -1, t = -1, minR = 0, maxR = 99, maxW = 99, maxL = 99, minW = 0;
     int err = 0;                 // 0: frames without error positions, 1: frames with, 2: both
     int custom = 0;              // 1: frames with the scripted custom lexer
+    int off = -1, noff = -1;     // lifted frames: select by number of filler terminals / nonterminals (-1: any)
     double deadline = 1e18;
     std::string one_spec, one_prec, one_rprec, one_input; bool one = false, has_input = false;
     std::string seeds, dump;
@@ -162,6 +163,7 @@ static TblCmp compare_tables(const Gram& g, const ref::LR1& L, const TableDump& 
     TblCmp c;
     c.ref2c.assign(L.st.size(), -1); c.c2ref.assign(d.nstates, -1);
     if (d.nstates == 0) { c.note("no states"); return c; }
+    if (d.spurious) { c.action_diff = true; c.note(d.spurious_what + (d.spurious > 1 ? " (and " + std::to_string(d.spurious - 1) + " more such entries)" : "")); }
     std::vector<int> q{0}; c.ref2c[0] = 0; c.c2ref[0] = 0;
     auto link = [&](int rs_to, int cs_to, const std::string& where) {
         if (cs_to < 0 || cs_to >= d.nstates) { c.target_diff = true; c.note(where + ": target state " + std::to_string(cs_to) + " out of range"); return; }
@@ -815,6 +817,7 @@ static void explore(FrameBase& f, const Gram& g) {
     BuildResult br = f.build(g);
     if (!br.ok) {
         ctr["construction_refused"]++;
+        if ((f.off || f.noff) && !br.bounds) { std::fprintf(stderr, "HARNESS ERROR: lifted frame %s: construction failed under the harness's own limits: %s (grammar %s)\n", f.name.c_str(), br.what.c_str(), g.text().c_str()); std::exit(2); }
         if (cfg.has("C12")) {
             if (br.bounds) add_viol("C12", "item-vector-overflow", f, g, "", std::string("default limits: ") + br.hit.what + " beyond capacity " + std::to_string(br.hit.cap) + " inside the table construction");
             else add_viol("C12", "default-state-cap-too-small", f, g, "", "construction with default limits failed: " + br.what + " (reference automaton has " + std::to_string(can.st.size()) + " states)");
@@ -879,6 +882,7 @@ static void explore(FrameBase& f, const Gram& g) {
 static bool frame_selected(const FrameBase& f) {
     if (f.seed_only) return false;
     if (bool(cfg.custom) != f.custom_lexer) return false;
+    if ((cfg.off >= 0 && f.off != cfg.off) || (cfg.noff >= 0 && f.noff != cfg.noff)) return false;
     if (cfg.nt >= 0 && f.NT != cfg.nt) return false;
     if (cfg.t >= 0 && f.T != cfg.t) return false;
     int W = 0, Lm = 0; bool he = false;
@@ -973,6 +977,8 @@ int main(int argc, char** argv) {
         else if (a == "--maxL") cfg.maxL = std::atoi(next().c_str());
         else if (a == "--err") cfg.err = std::atoi(next().c_str());
         else if (a == "--custom") cfg.custom = std::atoi(next().c_str());
+        else if (a == "--off") cfg.off = std::atoi(next().c_str());
+        else if (a == "--noff") cfg.noff = std::atoi(next().c_str());
         else if (a == "--deadline") cfg.deadline = std::atof(next().c_str());
         else if (a == "--prec-levels") cfg.prec_levels = std::atoi(next().c_str());
         else if (a == "--prec-base") cfg.prec_base = std::atoi(next().c_str());
@@ -999,6 +1005,7 @@ int main(int argc, char** argv) {
     auto find_frame = [&](const Gram& g) -> FrameBase* {
         for (auto* f : registry()) {
             if (f->NT != g.NT || f->T != g.T || f->R != g.R || f->custom_lexer != bool(cfg.custom)) continue;
+            if ((cfg.off >= 0 && f->off != cfg.off) || (cfg.noff >= 0 && f->noff != cfg.noff)) continue;
             bool ok = true;
             for (int i = 0; i < g.R && ok; ++i) { if (f->arity[i] != g.n[i]) ok = false; else for (int j = 0; j < g.n[i]; ++j) if (bool(f->iserr[i][j]) != (g.rhs[i][j] == ref::TERM + g.err())) ok = false; }
             if (ok) return f;
